@@ -269,6 +269,30 @@ pub fn run(o: &Opts, drv: &mut Driver, rep: &mut Report, prop: &str) {
         }).collect();
         one(drv, rep, &rt, "random", &ops, prop);
     }
+    // MANY records due at once / many superseded records: expiry work that is budgeted, batched or compacted shows only when a
+    // single operation finds dozens of due (or stale) records ahead of the one it needs
+    for &k in &[5usize, 33, 40, 70, 150] {
+        // k short-lived asks and a publication X with a slightly longer TTL; the clock jumps past everything; then X is asked
+        // for (must wait: X expired), re-published and asked again (must be answered with the NEW frame)
+        let mut ops: Vec<Op> = (0..k).map(|i| Op::Frame(i % 2, ask_frame(10 + (i % 200) as u8, 1))).collect();
+        ops.push(Op::Frame(2, pub_frame(0, 2, 1)));
+        ops.push(Op::Tick(5));
+        ops.push(Op::Frame(0, ask_frame(0, 3)));
+        ops.push(Op::Frame(2, pub_frame(0, 3, 2)));
+        ops.push(Op::Frame(1, ask_frame(0, 3)));
+        ops.push(Op::Tick(4));
+        ops.push(Op::Frame(1, ask_frame(1, 1)));
+        one(drv, rep, &rt, "mass-expiry", &ops, prop);
+        // an id asked first and published while the ask waits (ask TTL longer than the publication's), then k asks joining ONE
+        // other id (k superseded records), then the clock passes the publication's deadline
+        let mut ops = vec![Op::Frame(0, ask_frame(0, 100)), Op::Frame(2, pub_frame(0, 5, 1))];
+        ops.extend((0..k).map(|i| Op::Frame(i % 2, ask_frame(1, 20 + (i % 7) as u32))));
+        ops.push(Op::Tick(3)); ops.push(Op::Frame(1, ask_frame(0, 1)));
+        ops.push(Op::Tick(3)); ops.push(Op::Frame(1, ask_frame(2, 1)));
+        ops.push(Op::Frame(1, ask_frame(0, 1)));
+        ops.push(Op::Tick(200)); ops.push(Op::Frame(0, ask_frame(3, 1)));
+        one(drv, rep, &rt, "many-joins", &ops, prop);
+    }
     // clients that do not read while the history runs: backlogs of 1 … 230 undelivered frames on one connection
     // (waiting path: asked before published; immediate path: published before asked; the same id asked repeatedly)
     for (n, &k) in [1usize, 7, 99, 100, 101, 150, 230].iter().enumerate() {
